@@ -14,6 +14,7 @@ import TracingModel.Core.SpanDriver
 import TracingModel.Core.DirectiveDriver
 import TracingModel.Core.FilteringDriver
 import TracingModel.Core.LookupDriver
+import TracingModel.Core.TreeHintDriver
 import TracingModel.Core.EnvDynDriver
 import TracingModel.Core.NotifyDriver
 import TracingModel.Core.ReloadDriver
@@ -79,6 +80,8 @@ def dispatch (prop mode : String) : Option (List String → String) :=
   | "C09", "specfilt" => some FilteringDriver.spec
   | "C11", "modeldyn" => some EnvDynDriver.model
   | "C11", "specdyn" => some EnvDynDriver.spec
+  | "C08", "modelhint" => some TreeHintDriver.model
+  | "C08", "spechint" => some TreeHintDriver.spec
   | "C08", "model" => some DirectiveDriver.model2
   | "C08", "modelstack" => some FilteringDriver.model
   | "C08", "modelchain" => some FilteringDriver.modelChain
